@@ -95,8 +95,10 @@ func (w *c7World) doClose(who string) {
 			g := alive[0]
 			w.r.Fail("C07.R5", "a Close call returned while subscription tear-down goroutines were still running", "%s: %d goroutines, e.g. g%d created by %s, %s at %s", who, len(alive), g.ID, g.Created, g.State, g.Site)
 		}
+		// (every subscription's channel, also those a consumer is still reading: what is left in a closed channel stays
+		// readable, and nothing more is demanded of deliveries once a Close was called)
 		for _, s := range w.subs {
-			if s.subscribed && (s.stopped || s.holding) && !s.closedSeen {
+			if s.subscribed && !s.closedSeen {
 				closed := false
 				for k := 0; k <= int(w.cfg.OutputChannelBuffer)+1; k++ {
 					_, ok, got := simrt.TryRecvRaw(s.ch)
